@@ -21,14 +21,29 @@ META = dict(
          "simulation) differs must be in the next report exactly once with the value it has at that instant; no report "
          "contains a tag twice (checked on the message that would be sent, i.e. after the builder's de-duplication); a "
          "snapshot contains every tag of the system, UOD and merged tag collections.",
-    note="The first interval starts at the state before the first tick.  Unchanged tags may be reported (the statement does not "
+    note="Three programs additionally run for 400 ticks without any report, then one incremental report and a snapshot (a value "
+         "that changes late must not be lost because earlier notifications pile up).  The first interval starts at the state before the first tick.  Unchanged tags may be reported (the statement does not "
          "forbid it).  never-reported = the tag is in no incremental report of the whole run; missing-from-next-report = it is "
          "reported, but not when it changed.",
 )
 
 
+LONG = 400          # ticks without any report (a reporter that is disconnected for 40 s)
+LONG_PROGRAMS = [["Wait: 36s", "Mark: late"], ["Wait: 38s", "Valve: Open"], ["Watch: X > 1", "    Wait: 35s", "    Mark: late"]]
+
+
 def check_program(item):
-    lines, period = item
+    lines, period = item[0], item[1]
+    if len(item) > 2:
+        # one incremental report after a long silence (snapshot_each: followed by a snapshot)
+        tr = cc.trace(lines, period=period, snapshot_each=True, horizon=item[2])
+        probs, stats = cc.c36_problems(tr)
+        last = tr["ticks"][-1]
+        have = {r[0] for r in (last["snapshot"] or [])}
+        for n in tr["names"]:
+            if n not in have:
+                probs.append((f"C36:snapshot-misses:{n}", f"snapshot after {item[2]} ticks without a report does not contain tag {n}"))
+        return cc.uniq([(s_ + ":after-long-silence", w) for s_, w in probs]), stats, cc.nontrivial(tr), tr["tick_exceptions"]
     tr = cc.trace(lines, period=period, mid_snapshot=True)
     probs, stats = cc.c36_problems(tr)
     return cc.uniq(probs), stats, cc.nontrivial(tr), tr["tick_exceptions"]
@@ -37,20 +52,21 @@ def check_program(item):
 def run(ctx):
     periods = (1, 2) if ctx.quick else (1, 2, 3)
     progs = cc.corpus(ctx.quick)
-    items = [(lines, r) for lines in progs for r in periods]
+    items = [(lines, r) for lines in progs for r in periods] + [(lines, LONG, LONG) for lines in LONG_PROGRAMS]
     ctx.prove_deterministic(check_program, [items[0], items[81], items[-1]])
     gc.collect()
     gc.freeze()              # keep the forked workers from copying the inherited heap on their first collection
     results = ctx.pmap(check_program, items)
     reports = changed = snapshots = nontrivial = tick_exc = 0
-    for (lines, r), (viol, stats, nt, te) in zip(items, results):
+    for it, (viol, stats, nt, te) in zip(items, results):
+        lines, r = it[0], it[1]
         reports += stats["reports"]
         changed += stats["changed"]
         snapshots += stats["snapshots"]
         nontrivial += 1 if nt else 0
         tick_exc += te
         for sig, what in viol:
-            ctx.violation(sig, what, {"lines": lines, "period": r})
+            ctx.violation(sig, what, {"lines": lines, "period": r, "horizon": it[2] if len(it) > 2 else None})
     if nontrivial < len(items) // 2 or changed < 1000 or snapshots < len(items):
         raise HarnessError(f"vacuous: {nontrivial} non-trivial executions, {changed} changed (tag, interval) pairs, {snapshots} snapshots")
     n = len(items)
@@ -70,6 +86,11 @@ def run(ctx):
 
 
 def replay(data):
+    if data.get("horizon"):
+        viol = check_program((data["lines"], data["period"], data["horizon"]))[0]
+        for _, w in viol:
+            print(w)
+        return viol
     tr = cc.trace(data["lines"], period=data["period"], mid_snapshot=True)
     cc.print_trace(tr)
     probs, _ = cc.c36_problems(tr)
